@@ -895,7 +895,7 @@ int EGLPNUM_TYPENAME_ILLread_constraint_expr (
 		{
 			if (haveCoef == 0)
 			{
-				return EGLPNUM_TYPENAME_ILLlp_error (state, "Coefficient without variable.\n");
+				{ EGLPNUM_TYPENAME_EGlpNumClearVar (ntmp); EGLPNUM_TYPENAME_EGlpNumClearVar (sign); EGLPNUM_TYPENAME_EGlpNumClearVar (coef); return EGLPNUM_TYPENAME_ILLlp_error (state, "Coefficient without variable.\n"); }
 			}
 			else
 			{
